@@ -41,7 +41,7 @@ var intrinsics = map[string]bool{
 	"strings.ToLower": true, "strings.ToUpper": true, "strings.TrimRight": true, "strings.TrimLeft": true, "strings.TrimSpace": true,
 	"strings.Join": true, "strings.Split": true, "strings.Index": true, "strings.EqualFold": true,
 	"(*sync.Mutex).Lock": true, "(*sync.Mutex).Unlock": true, "(*sync.RWMutex).Lock": true, "(*sync.RWMutex).Unlock": true,
-	"(*sync.RWMutex).RLock": true, "(*sync.RWMutex).RUnlock": true, "(*sync.WaitGroup).Add": true, "(*sync.WaitGroup).Done": true, "(*sync.WaitGroup).Wait": true,
+	"(*sync.RWMutex).RLock": true, "(*sync.RWMutex).RUnlock": true, "(*sync.Cond).Broadcast": true, "(*sync.Cond).Signal": true, "(*sync.Cond).Wait": true, "(*sync.WaitGroup).Add": true, "(*sync.WaitGroup).Done": true, "(*sync.WaitGroup).Wait": true,
 	"sync/atomic.LoadInt32": true, "sync/atomic.LoadInt64": true, "sync/atomic.LoadUint32": true, "sync/atomic.LoadUint64": true,
 	"sync/atomic.StoreInt32": true, "sync/atomic.StoreInt64": true, "sync/atomic.StoreUint32": true, "sync/atomic.StoreUint64": true,
 	"sync/atomic.AddInt32": true, "sync/atomic.AddInt64": true, "sync/atomic.AddUint32": true, "sync/atomic.AddUint64": true,
@@ -1008,6 +1008,19 @@ func (fr *frame) inlineCall(v *ssa.Call, resName string, callee *ssa.Function, c
 			}
 		} else {
 			sub.vals[p] = fr.val(a)
+		}
+	}
+	if mc, ok := cc.Value.(*ssa.MakeClosure); ok {
+		for i, fv := range callee.FreeVars {
+			b := mc.Bindings[i]
+			if ad, isAddr := fr.addrs[b]; isAddr {
+				sub.addrs[fv] = ad
+				if ad.kind == 2 && len(ad.path) == 0 {
+					sub.vals[fv] = ad.ref
+				}
+			} else {
+				sub.vals[fv] = fr.val(b)
+			}
 		}
 	}
 	fc.depth++
